@@ -3,7 +3,7 @@
 (* driver against the reference target is accepted iff it is a behaviour of this specification.                  *)
 (* One state per consumed event; Step is total: it yields the next model state or the name of the violated        *)
 (* clause ("Cxx:<clause>" = the implementation broke the contract, "MACHINERY:<what>" = the harness did).          *)
-EXTENDS EipTarget, LogixView, TLCExt, Json, IOUtils
+EXTENDS EipTarget, LogixView, IdentityView, TLCExt, Json, IOUtils
 
 TraceLog == JsonDeserialize(IOEnv.TRACE_FILE)
 NTraces  == Len(TraceLog)
@@ -222,32 +222,6 @@ NamesStatusT(texts, err, st) ==
         txt == IF hits = {} THEN <<>> ELSE texts[CHOOSE i \in hits : TRUE][2]
     IN \/ (txt # <<>> /\ ContainsSeq(err.s, txt))
        \/ ContainsSeq(Lower(err.s), Hex2(st))
-
-(* Identity as the user sees it (C16): every field exactly as encoded, vendor / product type through the exported  *)
-(* tables or 'UNKNOWN', serial as 8 lower-case hex digits.                                                          *)
-K(str) == str
-HexDig(d) == IF d < 10 THEN 48 + d ELSE 87 + d
-Hex8(b4) == <<HexDig(b4[4] \div 16), HexDig(b4[4] % 16), HexDig(b4[3] \div 16), HexDig(b4[3] % 16),
-              HexDig(b4[2] \div 16), HexDig(b4[2] % 16), HexDig(b4[1] \div 16), HexDig(b4[1] % 16)>>
-Unknown == <<85, 78, 75, 78, 79, 87, 78>>
-Field(v, name) == DictGet(v.d, name)
-FieldIs(v, name, x) == Field(v, name).ok /\ TermEq(Field(v, name).v, x)
-IdentityClause(i, v, list) ==
-    IF ~IsD(v) THEN "C16:field:shape"
-    ELSE IF ~FieldIs(v, <<118, 101, 110, 100, 111, 114>>, MkS(IF i.vendor_text.has = 1 THEN i.vendor_text.s ELSE Unknown)) THEN "C16:field:vendor"
-    ELSE IF ~FieldIs(v, <<112, 114, 111, 100, 117, 99, 116, 95, 116, 121, 112, 101>>, MkS(IF i.ptype_text.has = 1 THEN i.ptype_text.s ELSE Unknown)) THEN "C16:field:product_type"
-    ELSE IF ~FieldIs(v, <<112, 114, 111, 100, 117, 99, 116, 95, 99, 111, 100, 101>>, MkI(SmallToBig(i.product_code))) THEN "C16:field:product_code"
-    ELSE IF ~FieldIs(v, <<114, 101, 118, 105, 115, 105, 111, 110>>, MkD(<<<<MkS(<<109, 97, 106, 111, 114>>), MkI(SmallToBig(i.rev_major))>>,
-                                                                         <<MkS(<<109, 105, 110, 111, 114>>), MkI(SmallToBig(i.rev_minor))>>>>)) THEN "C16:field:revision"
-    ELSE IF ~FieldIs(v, <<115, 116, 97, 116, 117, 115>>, [b |-> i.status]) THEN "C16:field:status"
-    ELSE IF ~FieldIs(v, <<115, 101, 114, 105, 97, 108>>, MkS(Hex8(i.serial_b))) THEN "C16:serial-format"
-    ELSE IF ~FieldIs(v, <<112, 114, 111, 100, 117, 99, 116, 95, 110, 97, 109, 101>>, MkS(i.name)) THEN "C16:field:product_name"
-    ELSE IF list /\ ~FieldIs(v, <<105, 112, 95, 97, 100, 100, 114, 101, 115, 115>>, MkS(QuadText(i.ip, 1))) THEN "C16:field:ip_address"
-    ELSE IF list /\ ~FieldIs(v, <<115, 116, 97, 116, 101>>, MkI(SmallToBig(i.state))) THEN "C16:field:state"
-    ELSE IF list /\ ~FieldIs(v, <<101, 110, 99, 97, 112, 95, 112, 114, 111, 116, 111, 99, 111, 108, 95, 118, 101, 114, 115, 105, 111, 110>>, MkI(SmallToBig(1))) THEN "C16:field:encap_protocol_version"
-    ELSE ""
-\* datetime can represent years 1..9999: microseconds below 253402300800000000 (8 bytes little-endian compare on the top bytes)
-TimeInRange(c) == c[8] < 3 \/ (c[8] = 3 /\ c[7] < 132)
 
 (* ------------------------------------------------------------------------------------------------------------ *)
 (* Obligations when a public call returns.                                                                        *)
